@@ -26,7 +26,9 @@ ShapesQuick == {
     Shape(<<"I", "O">>, <<1, 2>>, 4, 2, 2),
     Shape(<<"I", "B", "O", "H">>, <<1, 2, 3, 4>>, 3, 1, 1),
     Shape(<<"I", "I", "H", "O">>, <<1, 2, 4, 6>>, 3, 1, 1),
-    Shape(<<"B", "I", "O", "O", "H">>, <<1, 2, 3, 4, 5>>, 2, 0, 0) }
+    Shape(<<"B", "I", "O", "O", "H">>, <<1, 2, 3, 4, 5>>, 2, 0, 0),
+    \* sensors that do NOT come first in the node list (an output and a hidden node before an input and the bias)
+    Shape(<<"O", "I", "H", "B">>, <<1, 2, 3, 5>>, 3, 1, 1) }
 ShapesThorough == {
     Shape(<<"I", "O">>, <<1, 2>>, 4, 4, 2),
     Shape(<<"I", "H", "O">>, <<2, 3, 5>>, 3, 1, 2),
@@ -34,7 +36,9 @@ ShapesThorough == {
     Shape(<<"I", "I", "H", "O">>, <<1, 2, 4, 6>>, 4, 1, 1),
     Shape(<<"B", "I", "O", "O", "H">>, <<1, 2, 3, 4, 5>>, 3, 1, 1),
     Shape(<<"I", "I", "B", "O", "H", "H">>, <<1, 2, 3, 4, 5, 6>>, 3, 1, 1),
-    Shape(<<"I", "I", "B", "H", "H", "O", "O">>, <<1, 2, 3, 4, 5, 7, 8>>, 2, 1, 1) }
+    Shape(<<"I", "I", "B", "H", "H", "O", "O">>, <<1, 2, 3, 4, 5, 7, 8>>, 2, 1, 1),
+    Shape(<<"O", "I", "H", "B">>, <<1, 2, 3, 5>>, 4, 1, 1),
+    Shape(<<"H", "O", "I", "I", "O">>, <<2, 3, 4, 6, 7>>, 3, 1, 1) }
 ShapesOverlap == { Shape(<<"I", "O", "H">>, <<1, 2, 3>>, 1, 1, 1) }
 \* SIZE: genomes of n nodes (well beyond any size at which an implementation may switch data structures).  Their genes are not
 \* enumerated but given by a pattern (a chain, skip links, recurrent back links, every third gene disabled); the modules are
